@@ -270,6 +270,10 @@ func randomDef(r *rng, k streamKnobs, local byte) defn {
 	msgs := knownMsgs()
 	if k.unknownMsgs && r.chance(20) {
 		d.global = uint16([]int{0xFF00, 61, 400, 0xFFFE, 11, 13, 160}[r.intn(7)])
+		if r.chance(60) {
+			// many distinct unknown numbers in one stream (more than there are local types)
+			d.global = uint16(65000 + r.intn(60))
+		}
 		n := r.intn(5)
 		for i := 0; i < n; i++ {
 			bt := allBase[r.intn(len(allBase))]
